@@ -317,6 +317,22 @@ func c17Docs(cfg Config, lim c17Limits) ([]corpus.Doc, error) {
 				corpus.Doc{Name: a.Name + "+junk", Format: f, Data: append(append([]byte(nil), a.Data...), []byte(cr.Pick("\n\ntrailing junk\n", "x", "\x00\x00\x00", " <tt></tt>", "\r\n\r\n9\r\n"))...), Cues: -1, Gen: true})
 		}
 	}
+	// documents of exactly 4096 / 8192 / 65536 bytes (padded with blank lines): the last byte coincides with a buffer boundary
+	for _, f := range []string{"srt", "vtt", "ssa", "ttml"} {
+		for _, d := range gen {
+			if d.Format != f || len(d.Data) > 3000 {
+				continue
+			}
+			for _, size := range []int{4096, 8192, 65536} {
+				b := append([]byte(nil), d.Data...)
+				for len(b) < size {
+					b = append(b, '\n')
+				}
+				docs = append(docs, corpus.Doc{Name: fmt.Sprintf("exact%d-%s", size, d.Name), Format: f, Data: b, Cues: -1, Gen: true})
+			}
+			break
+		}
+	}
 	// a transport stream long enough for cumulative effects (hundreds of packets)
 	docs = append(docs, corpus.Doc{Name: "ts-long", Format: "ts", Data: corpus.FixedTS(1, "long#stream", 30), Cues: -1, Gen: true})
 	// documents with one line longer than the line scanner can buffer: how such a document is treated must not
